@@ -4610,6 +4610,10 @@ impl Handler {
             }
         }
 
+        // Session-aware query execution runs on the session's KG. A request that names a
+        // knowledge graph itself was authorized for that one and must run on it.
+        let use_session_kg = knowledge_graph.is_none();
+
         // Determine effective KG: use provided, or session's KG, or default
         let effective_kg = if knowledge_graph.is_some() {
             knowledge_graph
@@ -4642,7 +4646,7 @@ impl Handler {
         };
 
         let result = if is_query {
-            if let Some(sid) = session_id {
+            if let Some(sid) = session_id.filter(|_| use_session_kg) {
                 self.query_program_with_session(sid, program).await?
             } else {
                 self.query_program(effective_kg, program).await?
